@@ -21,12 +21,12 @@ Ops == Hists[h].ops
 Perms(S) == { s \in [1..Cardinality(S) -> S] : \A i, j \in 1..Cardinality(S) : i # j => s[i] # s[j] }
 
 FlowOf(s) == [ sp |-> s.sp, dp |-> s.dp, sns |-> s.sns, dns |-> s.dns, ftype |-> s.ftype, egress |-> s.egress,
-               ingress |-> s.ingress, prio |-> s.prio, start |-> s.start, end |-> s.end, endS |-> s.endS, endD |-> s.endD,
+               ingress |-> s.ingress, prio |-> s.prio, cip |-> s.cip, start |-> s.start, end |-> s.end, endS |-> s.endS, endD |-> s.endD,
                com |-> s.com, frS |-> s.frS, frD |-> s.frD, tp |-> s.tp, tpS |-> s.tpS, tpD |-> s.tpD,
                reason |-> s.reason, ready |-> s.ready, retries |-> s.retries, filled |-> s.filled ]
 \* a projection that carries only the record's values (GetRecords) or values + ready/filled (export)
 ValuesEq(s, f) == /\ s.sp = f.sp /\ s.dp = f.dp /\ s.sns = f.sns /\ s.dns = f.dns /\ s.ftype = f.ftype
-                  /\ s.egress = f.egress /\ s.ingress = f.ingress /\ s.prio = f.prio /\ s.start = f.start /\ s.end = f.end
+                  /\ s.egress = f.egress /\ s.ingress = f.ingress /\ s.prio = f.prio /\ s.cip = f.cip /\ s.start = f.start /\ s.end = f.end
                   /\ s.endS = f.endS /\ s.endD = f.endD /\ s.com = f.com /\ s.frS = f.frS /\ s.frD = f.frD
                   /\ s.tp = f.tp /\ s.tpS = f.tpS /\ s.tpD = f.tpD /\ s.reason = f.reason
 FlowsOf(list) == [k \in { list[i].k : i \in DOMAIN list } |-> FlowOf(list[CHOOSE i \in DOMAIN list : list[i].k = k])]
@@ -55,6 +55,7 @@ Do(op) ==
                                /\ { op.flows[i].k : i \in DOMAIN op.flows } = Held
                                /\ Len(op.flows) = Cardinality(Held)
                                /\ \A i \in DOMAIN op.flows : ValuesEq(op.flows[i], flows[op.flows[i].k])
+    [] op.kind = "Recheck"  -> UNCHANGED agvars /\ op.same      \* what a query returned earlier still reads the same at the end
     [] OTHER -> FALSE          \* monitor events (Race, Crash, Hang) have no sequential explanation
 
 Lin(i) ==
